@@ -21,7 +21,7 @@ THEOREMS = [
     "C11_concat_associates", "C11_concat_unit", "C11_int_add_mul_commute", "C11_int_add_mul_associate",
     "C11_int_sub_self_add_zero", "C11_mod_sign_and_bound", "C11_int_order",
     "C11_relational_defined_iff_numeric", "C11_logic_defined_iff_same_kind", "C11_shift_mod_errors",
-    "C11_nil_or_type_error",
+    "C11_nil_or_type_error", "C11_index_of_concat", "C11_len_defined",
 ]
 
 BINOPS = ["+", "-", "*", "/", "%", "&", "|", "<", ">", "<=", ">=", "==", "!=", "<<", ">>"]
